@@ -108,6 +108,10 @@ func EndBlocker(ctx sdk.Context, k keeper.Keeper) {
 						sdk.NewAttribute(types.AttributeKeyConsumer, requestContext.Consumer),
 					),
 				})
+				// without an exchange rate the batch is skipped like a batch no provider qualifies for:
+				// the context stays scheduled and the queue entry of this height is consumed
+				k.SkipCurrentRequestBatch(ctx, requestContextID, *requestContext)
+				k.DeleteNewRequestBatch(ctx, requestContextID, ctx.BlockHeight())
 				return
 			}
 
